@@ -327,6 +327,16 @@ fn unary_checks(cx: &mut CaseCx, a: &BigUint, ra: &Fp) {
     cmp(cx, "pow(a,e)", "unary/pow", &ra.pow(l), &rm::powm(a, &e), || json!({"a": a.to_string(), "e": e.to_string()}));
     cmp(cx, "pow_vartime(a,e)", "unary/pow_vartime", &ra.pow_vartime(l), &rm::powm(a, &e), || json!({"a": a.to_string(), "e": e.to_string()}));
   }
+  // exponents given as slices LONGER than the field's three limbs (pow / pow_vartime accept any length)
+  for (name, l) in [("2^192", vec![0u64, 0, 0, 1]), ("2^192 + 5", vec![5u64, 0, 0, 1]), ("2^256 + 2^64", vec![0u64, 1, 0, 0, 1]), ("3 with two zero limbs on top", vec![3u64, 0, 0, 0, 0]), ("2^320 - 1", vec![u64::MAX; 5]), ("a single limb 7", vec![7u64]), ("empty", vec![])] {
+    let mut e = BigUint::zero();
+    for (i, w) in l.iter().enumerate() {
+      e += BigUint::from(*w) << (64 * i);
+    }
+    let want = rm::powm(a, &e);
+    cmp(cx, "pow(a, long exponent)", "unary/pow-long-exponent", &ra.pow(&l), &want, || json!({"a": a.to_string(), "exponent": name}));
+    cmp(cx, "pow_vartime(a, long exponent)", "unary/pow_vartime-long-exponent", &ra.pow_vartime(&l), &want, || json!({"a": a.to_string(), "exponent": name}));
+  }
   // predicates and conversions
   cx.eval();
   if bool::from(ra.is_zero()) != a.is_zero() || ra.is_zero_vartime() != a.is_zero() {
